@@ -52,6 +52,7 @@ func trailingZeros(powDigest []byte, nonce uint64) int {
 		panic(err)
 	}
 	digest, _ := c.Squeeze(consts.HashTrinarySize)
+	simDigest(digest, nonce)
 	return trinary.TrailingZeros(digest)
 }
 
